@@ -1,61 +1,92 @@
 ----------------------------- MODULE TokensFile -----------------------------
 (***************************************************************************)
-(* C09, last clause - Tokens.StoreToFile writes a temporary file and       *)
-(* renames it over the tokens file; an abort (process death, failpoint) at *)
-(* any stage leaves the tokens file either as it was or completely new.    *)
-(* Lifecycler.tla relies on exactly this: file[i] changes atomically.      *)
+(* C09, last clause - the tokens file under SEQUENCES of Tokens.StoreToFile*)
+(* calls, each of which may be interrupted (process death, failpoint) at   *)
+(* any stage, with LoadTokensFromFile possible at any point.               *)
 (*                                                                         *)
-(* main : what LoadTokensFromFile would find at the final path             *)
-(* tmp  : the temporary file                                               *)
-(* The harness aborts the real StoreToFile at every stage (failpoints      *)
-(* tokens.store.created / .written / .closed) and after each abort checks  *)
-(* that the real file is in the state this specification allows.           *)
+(* StoreToFile(k) creates (and truncates) path.tmp, writes the JSON of     *)
+(* token set k, closes it and renames it over path.  Token sets differ in  *)
+(* serialized length (Size[k]); bytes are abstracted to content classes:    *)
+(*   main : 0 = no file, k > 0 = exactly the JSON of set k, -1 = garbage   *)
+(*   tmp  : [c |-> "none" | "empty" | "part" | "full" | "mix", k, n]       *)
+(*          part = a proper prefix of k's JSON, full = exactly k's JSON,   *)
+(*          mix = k's JSON followed by the tail of a longer older content, *)
+(*          n = length class of the file                                   *)
+(* Lifecycler.tla relies on what is decided here: file[i] changes          *)
+(* atomically, to the tokens of a store that completed.                    *)
+(* The harness replays every emitted call sequence on the real code        *)
+(* through the failpoints tokens.store.created / .written / .closed.       *)
 (***************************************************************************)
-EXTENDS Naturals, TLC, Json
+EXTENDS Integers, Sequences, TLC, Json
 
-CONSTANT Direct   \* FALSE: the code's protocol (temp file + rename); TRUE: writing the final path directly (a mutant)
+CONSTANTS K,         \* token sets 1..K
+          Size,      \* Size[k]: length class of the JSON of set k
+          MaxStores, \* calls per sequence
+          Direct,    \* TRUE: write the final path directly (a mutant; the code uses temp file + rename)
+          Trunc      \* FALSE: open the temp file without truncating it (a mutant; the code truncates)
 
-VARIABLES main,   \* "none" | "old" | "new" | "empty" | "partial"   (the last two are corrupt)
-          tmp,    \* "none" | "empty" | "partial" | "full"
-          pc,     \* "idle" | "created" | "written" | "closed" | "done" | "aborted"
-          m0, t0, \* history: the files before the call
-          at      \* history: the stage at which the call was aborted ("" = not aborted)
+VARIABLES main, tmp,
+          pc,      \* "idle" | "created" | "written" | "closed"
+          cur,     \* the set being stored
+          last,    \* history: the set of the last COMPLETED store (0 = none)
+          hist     \* history: <<[k, at, main]>> one record per finished call ("" = completed)
 
-vars == <<main, tmp, pc, m0, t0, at>>
+vars == <<main, tmp, pc, cur, last, hist>>
 
-Init == main \in {"none", "old"} /\ tmp \in {"none", "full"} /\ pc = "idle"   \* a stale temp file may exist
-        /\ m0 = main /\ t0 = tmp /\ at = ""
+NoTmp    == [c |-> "none", k |-> 0, n |-> 0]
+EmptyTmp == [c |-> "empty", k |-> 0, n |-> 0]
 
-Create == /\ pc = "idle" /\ pc' = "created"
-          /\ IF Direct THEN main' = "empty" /\ UNCHANGED tmp      \* os.Create truncates
-             ELSE tmp' = "empty" /\ UNCHANGED main
+Init == main = 0 /\ tmp = NoTmp /\ pc = "idle" /\ cur = 0 /\ last = 0 /\ hist = <<>>
+
+\* writing all of k's JSON at offset 0 of a file that currently holds n bytes
+Over(f, k) == IF f.c \in {"none", "empty"} \/ Size[k] >= f.n
+              THEN [c |-> "full", k |-> k, n |-> Size[k]]
+              ELSE [c |-> "mix", k |-> k, n |-> f.n]
+Class(f) == IF f.c = "full" THEN f.k ELSE IF f.c = "none" THEN 0 ELSE -1
+MainAsFile == IF main = 0 THEN NoTmp ELSE IF main > 0 THEN [c |-> "full", k |-> main, n |-> Size[main]]
+              ELSE [c |-> "mix", k |-> 0, n |-> 99]
+
+Create(k) == /\ pc = "idle" /\ Len(hist) < MaxStores /\ pc' = "created" /\ cur' = k
+             /\ IF Direct
+                THEN /\ main' = IF Trunc \/ main = 0 THEN -1 ELSE main   \* truncated to nothing: unreadable
+                     /\ UNCHANGED tmp
+                ELSE /\ tmp' = IF Trunc \/ tmp.c = "none" THEN EmptyTmp ELSE tmp
+                     /\ UNCHANGED main
+             /\ UNCHANGED <<last, hist>>
 \* the write is not atomic: a prefix may have reached the file when the process dies
-WritePart == /\ pc = "created"
-             /\ IF Direct THEN main' = "partial" /\ UNCHANGED tmp ELSE tmp' = "partial" /\ UNCHANGED main
-             /\ UNCHANGED pc
+WritePart == /\ pc = "created" /\ ~Direct /\ tmp.c = "empty"
+             /\ tmp' = [c |-> "part", k |-> cur, n |-> 0]
+             /\ UNCHANGED <<main, pc, cur, last, hist>>
 Write == /\ pc = "created" /\ pc' = "written"
-         /\ IF Direct THEN main' = "new" /\ UNCHANGED tmp ELSE tmp' = "full" /\ UNCHANGED main
-Close == pc = "written" /\ pc' = "closed" /\ UNCHANGED <<main, tmp>>
-Rename == /\ pc = "closed" /\ pc' = "done"
-          /\ IF Direct THEN UNCHANGED <<main, tmp>> ELSE main' = "new" /\ tmp' = "none"   \* rename(2) is atomic
-Abort == pc \in {"created", "written", "closed"} /\ pc' = "aborted" /\ at' = pc /\ UNCHANGED <<main, tmp, m0, t0>>
+         /\ IF Direct
+            THEN main' = Class(Over(IF Trunc THEN EmptyTmp ELSE MainAsFile, cur)) /\ UNCHANGED tmp
+            ELSE tmp' = Over(IF tmp.c = "part" THEN EmptyTmp ELSE tmp, cur) /\ UNCHANGED main
+         /\ UNCHANGED <<cur, last, hist>>
+Close == pc = "written" /\ pc' = "closed" /\ UNCHANGED <<main, tmp, cur, last, hist>>
+Rename == /\ pc = "closed" /\ pc' = "idle"
+          /\ IF Direct THEN UNCHANGED <<main, tmp>>
+             ELSE main' = Class(tmp) /\ tmp' = NoTmp           \* rename(2) is atomic
+          /\ last' = cur /\ cur' = 0
+          /\ hist' = Append(hist, [k |-> cur, at |-> "", main |-> main'])
+Abort == /\ pc \in {"created", "written", "closed"} /\ pc' = "idle"
+         /\ hist' = Append(hist, [k |-> cur, at |-> pc, main |-> main])
+         /\ cur' = 0 /\ UNCHANGED <<main, tmp, last>>
 
-Step == (Create \/ WritePart \/ Write \/ Close \/ Rename) /\ UNCHANGED <<m0, t0, at>>
-Next == Step \/ Abort
+Next == (\E k \in 1..K : Create(k)) \/ WritePart \/ Write \/ Close \/ Rename \/ Abort
 Spec == Init /\ [][Next]_vars
 
-TypeOK == /\ main \in {"none", "old", "new", "empty", "partial"}
-          /\ tmp \in {"none", "empty", "partial", "full"}
-          /\ pc \in {"idle", "created", "written", "closed", "done", "aborted"}
+TypeOK == main \in -1..K /\ pc \in {"idle", "created", "written", "closed"} /\ last \in 0..K
 
-\* whatever happens, a reader of the tokens file finds nothing, the old or the new tokens
-FileNeverCorrupt == main \in {"none", "old", "new"}
-\* an abort never changes what a reader finds
-AbortKeepsOld == [][pc' = "aborted" => main' = main]_vars
-\* and the file only ever changes to the complete new content
-OnlyOldOrNew == [][main' # main => main' = "new"]_vars
-Completes == pc = "done" => main = "new"
+\* at ANY point a reader finds exactly the tokens of the last completed store (or no file): never garbage,
+\* never the tokens of an interrupted store, never an older set
+FileNeverCorrupt == main = last
+\* an abort never changes what a reader finds; the file only ever changes to the complete new content
+AbortKeepsOld == [][(pc # "idle" /\ pc' = "idle" /\ last' = last) => main' = main]_vars
+OnlyOldOrNew  == [][main' # main => (main' = cur /\ cur > 0)]_vars
 
-\* case emitter (gen/replay): every way the call can end, with what a reader must find afterwards
-Emit == pc \in {"done", "aborted"} => PrintT(ToJson([m0 |-> m0, t0 |-> t0, at |-> at, main |-> main]))
+Len3 == <<1, 2, 3>>        \* three sets of increasing serialized length
+Len4 == <<1, 2, 2, 3>>     \* ... and two different sets of the same length
+
+\* case emitter (gen/replay): every sequence of MaxStores calls with what a reader must find after each call
+Emit == (pc = "idle" /\ Len(hist) = MaxStores) => PrintT(ToJson(hist))
 =============================================================================
